@@ -192,78 +192,9 @@ impl DataWorld {
 
     /// API-level dump compared with the model through the aux connection: returns deviations
     fn dump_check(&mut self) -> Result<Vec<(String, Value)>, String> {
-        let mut devs = Vec::new();
-        self.model.set_clock();
         let srv = self.srv.as_ref().unwrap();
         let aux = self.aux.as_mut().unwrap();
-        for db in 0..16usize {
-            let model_keys: Vec<Bytes> = {
-                let now = self.model.now;
-                self.model.dbs[db].keys.iter().filter(|(_, e)| e.deadline.map(|d| now <= d).unwrap_or(true)).map(|(k, _)| k.clone()).collect()
-            };
-            // only look at databases that hold something in the model or in the implementation
-            let raw = srv.h.storage.verif_raw_dump(db, 0);
-            if model_keys.is_empty() && raw.is_empty() {
-                continue;
-            }
-            let sel = srv.call(aux, &[b"SELECT".to_vec(), db.to_string().into_bytes()]).map_err(|e| format!("dump SELECT: {:?}", e))?;
-            if sel != R::ok() {
-                return Err(format!("dump SELECT {} -> {}", db, resp::show(&sel)));
-            }
-            let mut cmds: Vec<Vec<Bytes>> = vec![vec![b"KEYS".to_vec(), b"*".to_vec()]];
-            let keys_reply = srv.call(aux, &cmds[0]).map_err(|e| format!("dump KEYS: {:?}", e))?;
-            let mut all: std::collections::BTreeSet<Bytes> = model_keys.iter().cloned().collect();
-            if let R::Arr(v) = &keys_reply {
-                for k in v {
-                    if let R::Bulk(bk) = k {
-                        all.insert(bk.clone());
-                    }
-                }
-            }
-            let j = self.model.apply(db, &cmds[0], &keys_reply);
-            if !j.ok {
-                devs.push((format!("{}|STATE after {}|KEYS db{}|exp={}|act={}", self.spec.prop, self.last_sig, db, j.exp_class, resp::class(&keys_reply)),
-                    json!({"command": "KEYS *", "db": db, "expected": j.exp_desc, "actual": resp::show(&keys_reply)})));
-            }
-            cmds.clear();
-            for k in all.iter() {
-                cmds.push(vec![b"TYPE".to_vec(), k.clone()]);
-                let t = self.model.dbs[db].keys.get(k).map(|e| e.val.type_name()).unwrap_or("none");
-                let read: Vec<Bytes> = match t {
-                    "string" => vec![b"GET".to_vec(), k.clone()],
-                    "list" => vec![b"LRANGE".to_vec(), k.clone(), b"0".to_vec(), b"-1".to_vec()],
-                    "set" => vec![b"SMEMBERS".to_vec(), k.clone()],
-                    "hash" => vec![b"HGETALL".to_vec(), k.clone()],
-                    "zset" => vec![b"ZRANGE".to_vec(), k.clone(), b"0".to_vec(), b"-1".to_vec(), b"WITHSCORES".to_vec()],
-                    "stream" => vec![b"XRANGE".to_vec(), k.clone(), b"-".to_vec(), b"+".to_vec()],
-                    _ => vec![b"EXISTS".to_vec(), k.clone()],
-                };
-                cmds.push(read);
-                cmds.push(vec![b"PTTL".to_vec(), k.clone()]);
-            }
-            for c in cmds.iter() {
-                self.model.set_clock();
-                let sig_args = self.model.sig_of(db, c);
-                let reply = match srv.call(aux, c) {
-                    Ok(r) => r,
-                    Err(e) => {
-                        devs.push((format!("{}|STATE after {}|{}|act={}", self.spec.prop, self.last_sig, sig_args, err_class(&e)),
-                            json!({"command": resp::show_cmd(c), "db": db, "actual": err_class(&e)})));
-                        aux.close();
-                        return Ok(devs);
-                    }
-                };
-                let j = self.model.apply(db, c, &reply);
-                if !j.ok {
-                    devs.push((format!("{}|STATE after {}|{}|exp={}|act={}", self.spec.prop, self.last_sig, sig_args, j.exp_class, resp::class(&reply)),
-                        json!({"command": resp::show_cmd(c), "db": db, "expected": j.exp_desc, "actual": resp::show(&reply)})));
-                }
-            }
-        }
-        if self.spec.db != 0 || true {
-            let _ = srv.call(aux, &[b"SELECT".to_vec(), b"0".to_vec()]);
-        }
-        Ok(devs)
+        dump_check(srv, aux, &mut self.model, &self.spec.prop, &self.last_sig)
     }
 
     fn fp_text(&mut self) -> String {
@@ -289,6 +220,79 @@ impl DataWorld {
         s
     }
 }
+
+/// API-level dump (KEYS / TYPE / full read / PTTL per key, all 16 databases) compared with the model through `aux`
+pub fn dump_check(srv: &Srv, aux: &mut Client, model: &mut Model, prop: &str, last_sig: &str) -> Result<Vec<(String, Value)>, String> {
+    let mut devs = Vec::new();
+    model.set_clock();
+    for db in 0..16usize {
+        let model_keys: Vec<Bytes> = {
+            let now = model.now;
+            model.dbs[db].keys.iter().filter(|(_, e)| e.deadline.map(|d| now <= d).unwrap_or(true)).map(|(k, _)| k.clone()).collect()
+        };
+        // only look at databases that hold something in the model or in the implementation
+        let raw = srv.h.storage.verif_raw_dump(db, 0);
+        if model_keys.is_empty() && raw.is_empty() {
+            continue;
+        }
+        let sel = srv.call(aux, &[b"SELECT".to_vec(), db.to_string().into_bytes()]).map_err(|e| format!("dump SELECT: {:?}", e))?;
+        if sel != R::ok() {
+            return Err(format!("dump SELECT {} -> {}", db, resp::show(&sel)));
+        }
+        let mut cmds: Vec<Vec<Bytes>> = vec![vec![b"KEYS".to_vec(), b"*".to_vec()]];
+        let keys_reply = srv.call(aux, &cmds[0]).map_err(|e| format!("dump KEYS: {:?}", e))?;
+        let mut all: std::collections::BTreeSet<Bytes> = model_keys.iter().cloned().collect();
+        if let R::Arr(v) = &keys_reply {
+            for k in v {
+                if let R::Bulk(bk) = k {
+                    all.insert(bk.clone());
+                }
+            }
+        }
+        let j = model.apply(db, &cmds[0], &keys_reply);
+        if !j.ok {
+            devs.push((format!("{}|STATE after {}|KEYS db{}|exp={}|act={}", prop, last_sig, db, j.exp_class, resp::class(&keys_reply)),
+                json!({"command": "KEYS *", "db": db, "expected": j.exp_desc, "actual": resp::show(&keys_reply)})));
+        }
+        cmds.clear();
+        for k in all.iter() {
+            cmds.push(vec![b"TYPE".to_vec(), k.clone()]);
+            let t = model.dbs[db].keys.get(k).map(|e| e.val.type_name()).unwrap_or("none");
+            let read: Vec<Bytes> = match t {
+                "string" => vec![b"GET".to_vec(), k.clone()],
+                "list" => vec![b"LRANGE".to_vec(), k.clone(), b"0".to_vec(), b"-1".to_vec()],
+                "set" => vec![b"SMEMBERS".to_vec(), k.clone()],
+                "hash" => vec![b"HGETALL".to_vec(), k.clone()],
+                "zset" => vec![b"ZRANGE".to_vec(), k.clone(), b"0".to_vec(), b"-1".to_vec(), b"WITHSCORES".to_vec()],
+                "stream" => vec![b"XRANGE".to_vec(), k.clone(), b"-".to_vec(), b"+".to_vec()],
+                _ => vec![b"EXISTS".to_vec(), k.clone()],
+            };
+            cmds.push(read);
+            cmds.push(vec![b"PTTL".to_vec(), k.clone()]);
+        }
+        for c in cmds.iter() {
+            model.set_clock();
+            let sig_args = model.sig_of(db, c);
+            let reply = match srv.call(aux, c) {
+                Ok(r) => r,
+                Err(e) => {
+                    devs.push((format!("{}|STATE after {}|{}|act={}", prop, last_sig, sig_args, err_class(&e)),
+                        json!({"command": resp::show_cmd(c), "db": db, "actual": err_class(&e)})));
+                    aux.close();
+                    return Ok(devs);
+                }
+            };
+            let j = model.apply(db, c, &reply);
+            if !j.ok {
+                devs.push((format!("{}|STATE after {}|{}|exp={}|act={}", prop, last_sig, sig_args, j.exp_class, resp::class(&reply)),
+                    json!({"command": resp::show_cmd(c), "db": db, "expected": j.exp_desc, "actual": resp::show(&reply)})));
+            }
+        }
+    }
+    let _ = srv.call(aux, &[b"SELECT".to_vec(), b"0".to_vec()]);
+    Ok(devs)
+}
+
 
 impl World for DataWorld {
     fn n_actions(&self) -> usize {
